@@ -302,7 +302,13 @@ class EarleyParser(Parser):
     def parse_prefix(self, text):
         self.table = self.chart_parse(text, self.start_symbol())
         for col in reversed(self.table):
-            states = [st for st in col.states if st.name == self.start_symbol()]
+            # Only states spanning the input from its beginning are parses of a prefix;
+            # the start symbol can also occur (recursively) further to the right.
+            states = [
+                st
+                for st in col.states
+                if st.name == self.start_symbol() and st.s_col.index == 0
+            ]
             if states:
                 return col.index, states
         return -1, []
